@@ -654,8 +654,58 @@ def restriction_allows(restr, name):
     return True
 
 
+def oracle_registers(sim, case):
+    """Visit bookkeeping: every registered visit is visible, with its exact count, through the registers of
+    every equivalent (same worker-invariant identity) node of every worker."""
+    KINDS = ("_picked_by_setup_nodes", "_picked_by_cleanup_nodes", "_dropped_setup_nodes", "_dropped_cleanup_nodes")
+    owners = {}
+    for node in sim.graph.nodes:
+        for kind in KINDS:
+            owners.setdefault(id(getattr(node, kind)), (kind, sim.identity(node)))
+    expected = {}
+    lost = 0
+    for register, other, worker in sim.registrations:
+        owner = owners.get(id(register))
+        if owner is None:
+            lost += 1
+            continue
+        key = (owner[0], owner[1], sim.identity(other), worker)
+        expected[key] = expected.get(key, 0) + 1
+    if lost:
+        raise Violation({"oracle": "visit-register-discarded"},
+                        f"{lost} visits were registered in registers that no node of the final graph holds any more\n" + brief(sim), case)
+    workers = {w.id: w for w in sim.graph.workers.values()}
+    by_identity = {}
+    for node in sim.graph.nodes:
+        by_identity.setdefault(sim.identity(node), []).append(node)
+    nodes_of = {sim.identity(n): n for n in sim.graph.nodes}
+    for (kind, owner_ident, other_ident, worker), count in sorted(expected.items()):
+        other = nodes_of.get(other_ident)
+        if other is None:
+            continue
+        for node in by_identity.get(owner_ident, []):
+            got = getattr(node, kind).get_counters(other, workers[worker])
+            if got != count:
+                raise Violation({"oracle": "visit-counter-not-shared", "kind": kind.strip("_")},
+                                f"{kind} of {node.params['shortname']} reports {got} visits of {other_ident[:60]} by {worker}, "
+                                f"{count} were registered for this identity\n" + brief(sim), case)
+    for ident, nodes in by_identity.items():
+        if len(nodes) < 2 or nodes[0].is_flat():
+            continue
+        for kind in KINDS:
+            if len({id(getattr(n, kind)) for n in nodes}) != 1:
+                raise Violation({"oracle": "equivalent-nodes-do-not-share-register", "kind": kind.strip("_")},
+                                f"{[n.params['shortname'] for n in nodes]} hold different {kind} registers", case)
+        for node in nodes:
+            others = {id(n) for n in nodes if n is not node}
+            if {id(n) for n in node.bridged_nodes} != others:
+                raise Violation({"oracle": "bridging-incomplete-or-asymmetric"},
+                                f"{node.params['shortname']} bridged with {[n.params['shortname'] for n in node.bridged_nodes]} "
+                                f"but equivalent nodes are {[n.params['shortname'] for n in nodes if n is not node]}", case)
+
+
 ORACLES = {"C01": oracle_c01, "C02": oracle_c02, "C03": oracle_c03, "C04": oracle_c04,
-           "C05": oracle_c05, "C08": oracle_c08}
+           "C05": oracle_c05, "C08": oracle_c08, "REG": oracle_registers}
 
 
 def judge(sim, case, prop):
